@@ -162,6 +162,7 @@ pub fn c03_worker(ctx: &mut Ctx) {
         }
     }
     ctx.max("max_sweep_events_in_one_call", max_events);
+    crate::props::run_known(ctx, &mut |case, op, f32_run| c03_check(case, op, f32_run));
     // large inputs: only in the native variants, on one shard each
     if !slow {
         let sizes: Vec<(usize, usize)> = match ctx.tier {
